@@ -14,7 +14,7 @@ for pid in sorted(md.CLAIMED):
         "evidence_file": f"/verif/evidence/{pid}.json",
         "replay_cmd_template": "cat {path}",
         "engine": "svgdx-sa",
-        "level_claimed": {"category": "other", "text": c["text"], "design_ref": c["design_ref"]},
+        "level_claimed": {"category": "other", "text": c["text"] + md.EXTRA_TEXT.get(pid, ""), "design_ref": c["design_ref"]},
         "level_note": c["note"],
         "technique": c["technique"],
     })
